@@ -14,9 +14,11 @@ import (
 	chain "github.com/comdex-official/comdex/app"
 	"github.com/comdex-official/comdex/app/wasm/bindings"
 	assettypes "github.com/comdex-official/comdex/x/asset/types"
+	auctiontypes "github.com/comdex-official/comdex/x/auction/types"
 	auctionsV2types "github.com/comdex-official/comdex/x/auctionsV2/types"
 	collectortypes "github.com/comdex-official/comdex/x/collector/types"
 	esmtypes "github.com/comdex-official/comdex/x/esm/types"
+	liq1types "github.com/comdex-official/comdex/x/liquidation/types"
 	liq2types "github.com/comdex-official/comdex/x/liquidationsV2/types"
 	markettypes "github.com/comdex-official/comdex/x/market/types"
 	vaulttypes "github.com/comdex-official/comdex/x/vault/types"
@@ -209,11 +211,18 @@ func c01NewWorld(t *testing.T, tr *Trace, rng *Rng) *c01World {
 		w.app.NewliqKeeper.SetLiquidationWhiteListing(w.ctx, liq2types.LiquidationWhiteListing{AppId: a, Initiator: true, IsDutchActivated: true,
 			DutchAuctionParam: &d, IsEnglishActivated: false, EnglishAuctionParam: &e, KeeeperIncentive: c01Dec("0.1")})
 	}
+	// first-generation liquidation (x/liquidation) and Dutch auctions (x/auction) for every app as well: which generation
+	// seizes a given vault is drawn per operation
+	for _, a := range w.apps {
+		w.app.LiquidationKeeper.SetAppIDForLiquidation(w.ctx, a)
+		w.app.AuctionKeeper.SetAuctionParams(w.ctx, auctiontypes.AuctionParams{AppId: a, AuctionDurationSeconds: 3600, Buffer: c01Dec("1.2"),
+			Cusp: c01Dec("0.7"), Step: sdk.NewInt(1), PriceFunctionType: 1, SurplusId: 1, DebtId: 2, DutchId: 3, BidDurationSeconds: 3600})
+	}
 	w.app.NewaucKeeper.SetAuctionParams(w.ctx, auctionsV2types.AuctionParams{AuctionDurationSeconds: 3600, Step: c01Dec("0.1"),
 		WithdrawalFee: sdk.ZeroDec(), ClosingFee: sdk.ZeroDec(), MinUsdValueLeft: 100000, BidFactor: c01Dec("0.1"),
 		LiquidationPenalty: c01Dec("0.1"), AuctionBonus: sdk.ZeroDec()})
 	// module accounts exist on a live chain (created at first use); create them before anybody can send coins there
-	for _, m := range []string{vaulttypes.ModuleName, collectortypes.ModuleName, auctionsV2types.ModuleName} {
+	for _, m := range []string{vaulttypes.ModuleName, collectortypes.ModuleName, auctionsV2types.ModuleName, auctiontypes.ModuleName} {
 		w.app.AccountKeeper.GetModuleAccount(w.ctx, m)
 	}
 	// module accounts and users
@@ -374,7 +383,12 @@ func (w *c01World) stateKind(kind string) {
 	accts = append(accts, w.users...)
 	for _, a := range accts {
 		for _, id := range w.assetIDs {
-			bs = append(bs, fmt.Sprintf("%d:%d:%s", w.acct(a.String()), id, w.app.BankKeeper.GetBalance(w.ctx, a, w.denomOf[id]).Amount))
+			amt := w.app.BankKeeper.GetBalance(w.ctx, a, w.denomOf[id]).Amount
+			if a.Equals(authtypes.NewModuleAddress(auctionsV2types.ModuleName)) {
+				// "auction custody" = both generations' auction module accounts
+				amt = amt.Add(w.app.BankKeeper.GetBalance(w.ctx, authtypes.NewModuleAddress(auctiontypes.ModuleName), w.denomOf[id]).Amount)
+			}
+			bs = append(bs, fmt.Sprintf("%d:%d:%s", w.acct(a.String()), id, amt))
 		}
 	}
 	for _, id := range w.assetIDs {
@@ -387,6 +401,11 @@ func (w *c01World) stateKind(kind string) {
 		}
 		// principal at seizure = DebtToken - interest - closing fee is not stored; the harness records it at seizure time
 		if rec, ok := c01Seized[l.OriginalVaultId]; ok && rec.world == w {
+			lk = append(lk, fmt.Sprintf("%d:%d:%s:%s:%s", l.OriginalVaultId, l.ExtendedPairId, rec.in, rec.out, rec.debt))
+		}
+	}
+	for _, l := range w.app.LiquidationKeeper.GetLockedVaults(w.ctx) {
+		if rec, ok := c01Seized[l.OriginalVaultId]; ok && rec.world == w && rec.gen1 {
 			lk = append(lk, fmt.Sprintf("%d:%d:%s:%s:%s", l.OriginalVaultId, l.ExtendedPairId, rec.in, rec.out, rec.debt))
 		}
 	}
@@ -404,6 +423,7 @@ func (w *c01World) stateKind(kind string) {
 type c01SeizedRec struct {
 	world         *c01World
 	in, out, debt sdk.Int
+	gen1          bool
 }
 
 var c01Seized = map[uint64]c01SeizedRec{}
@@ -586,6 +606,10 @@ func (w *c01World) oneOp() {
 		w.bidOp(user)
 		return
 	}
+	if len(w.openAuctions1()) > 0 && r.Chance(20) {
+		w.bidOp1(user)
+		return
+	}
 	switch c := r.Intn(100); {
 	case c < 6: // price move / deactivation
 		a := w.assetIDs[r.Intn(len(w.assetIDs))]
@@ -713,12 +737,18 @@ func (w *c01World) oneOp() {
 			w.setPrice(vp.assetIn, np, true)
 		}
 		env := w.env(v.AppId, v.ExtendedPairVaultID, v.Id, true)
-		okk := w.deliver(&liq2types.MsgLiquidateInternalKeeperRequest{From: user.String(), LiqType: 0, Id: v.Id})
+		gen1 := r.Chance(45)
+		var okk bool
+		if gen1 {
+			okk = w.deliver(&liq1types.MsgLiquidateVaultRequest{From: user.String(), AppId: v.AppId, VaultId: v.Id})
+		} else {
+			okk = w.deliver(&liq2types.MsgLiquidateInternalKeeperRequest{From: user.String(), LiqType: 0, Id: v.Id})
+		}
 		_, still := w.app.VaultKeeper.GetVault(w.ctx, v.Id)
 		if restore != 0 {
 			w.setPrice(vp.assetIn, restore, true)
 		}
-		w.tr.Count(fmt.Sprintf("op:liquidate:accepted=%v:seized=%v", okk, !still))
+		w.tr.Count(fmt.Sprintf("op:liquidate:gen1=%v:accepted=%v:seized=%v", gen1, okk, !still))
 		if okk && !still && os.Getenv("VERIF_DEBUG") != "" {
 			owed := v.AmountOut.Add(v.InterestAccumulated).Add(v.ClosingFeeAccumulated)
 			tw, _ := w.app.MarketKeeper.GetTwa(w.ctx, vp.assetIn)
@@ -731,7 +761,14 @@ func (w *c01World) oneOp() {
 					debt = l.DebtToken.Amount // principal + interest + closing fee at seizure
 				}
 			}
-			c01Seized[v.Id] = c01SeizedRec{world: w, in: v.AmountIn, out: v.AmountOut, debt: debt}
+			if gen1 {
+				for _, l := range w.app.LiquidationKeeper.GetLockedVaults(w.ctx) {
+					if l.OriginalVaultId == v.Id {
+						debt = l.AmountOut.Add(l.InterestAccumulated) // principal + (interest + closing fee) at seizure
+					}
+				}
+			}
+			c01Seized[v.Id] = c01SeizedRec{world: w, in: v.AmountIn, out: v.AmountOut, debt: debt, gen1: gen1}
 			emit("seize", u(v.Id), "-", "-", "-", "-", env, true)
 		} else {
 			w.state()
@@ -904,6 +941,71 @@ func (w *c01World) bidOp(user sdk.AccAddress) {
 		w.stateKind("vault.state.settle")
 	} else {
 		// a partial fill moves only auction-module and bidder balances; re-synchronise through a settlement-style line
+		w.tr.Line("vault.msg", "donate", "99", "0", "0", "-", "-", "esm=0;past=0;brk=0;pin=-;pout=-;iota=0", "err")
+		w.stateKind("vault.state.bid")
+	}
+}
+
+// openAuctions1: first-generation Dutch auctions (x/auction) of seized vaults
+func (w *c01World) openAuctions1() []auctiontypes.DutchAuction {
+	var out []auctiontypes.DutchAuction
+	for _, a := range w.apps {
+		out = append(out, w.app.AuctionKeeper.GetDutchAuctions(w.ctx, a)...)
+	}
+	return out
+}
+
+// bidOp1: a bid on a first-generation Dutch auction names the amount of COLLATERAL to buy; the debt asked for it follows
+// from the auction price. Everything / a fraction / one unit around what is left. When the auction closes
+// (`CloseDutchAuction`) the principal is burnt and the product totals are reduced (`UpdateProtocolData`).
+func (w *c01World) bidOp1(user sdk.AccAddress) {
+	r := w.rng
+	auc := w.openAuctions1()
+	a := auc[r.Intn(len(auc))]
+	var lockedOrig uint64
+	for _, l := range w.app.LiquidationKeeper.GetLockedVaults(w.ctx) {
+		if l.LockedVaultId == a.LockedVaultId && l.AppId == a.AppId {
+			lockedOrig = l.OriginalVaultId
+		}
+	}
+	if r.Chance(30) {
+		// let the auction price decay (the auction module's begin-blocker step for this app); under emergency shutdown
+		// that step winds auctions down through a path outside this model, so it is not taken then
+		if st, f := w.app.EsmKeeper.GetESMStatus(w.ctx, a.AppId); !(f && st.Status) && !w.ctx.BlockTime().After(a.EndTime) {
+			_ = w.app.AuctionKeeper.RestartDutch(w.ctx, a.AppId)
+			for _, x := range w.openAuctions1() {
+				if x.AuctionId == a.AuctionId && x.AppId == a.AppId {
+					a = x
+				}
+			}
+		}
+	}
+	slice := a.OutflowTokenCurrentAmount.Amount
+	kind := r.Intn(4)
+	switch kind {
+	case 0:
+		slice = slice.QuoRaw(int64(2 + r.Intn(9)))
+	case 1:
+		slice = slice.AddRaw(int64(r.Intn(3) - 1))
+	}
+	if !slice.IsPositive() {
+		slice = sdk.NewInt(1)
+	}
+	debtAsset := w.assetByDenom(a.InflowTokenTargetAmount.Denom)
+	need := a.InflowTokenTargetAmount.Amount.MulRaw(2)
+	if bal := w.app.BankKeeper.GetBalance(w.ctx, user, a.InflowTokenTargetAmount.Denom).Amount; bal.LT(need) {
+		w.fund(user, debtAsset, need.Sub(bal))
+		w.state()
+	}
+	okk := w.deliver(&auctiontypes.MsgPlaceDutchBidRequest{AuctionId: a.AuctionId, Bidder: user.String(),
+		Amount: sdk.NewCoin(a.OutflowTokenCurrentAmount.Denom, slice), AppId: a.AppId, AuctionMappingId: a.AuctionMappingId})
+	_, err := w.app.AuctionKeeper.GetDutchAuction(w.ctx, a.AppId, a.AuctionMappingId, a.AuctionId)
+	closed := okk && err != nil
+	w.tr.Count(fmt.Sprintf("op:dutchbid1:kind=%d:accepted=%v:closed=%v", kind, okk, closed))
+	if closed && lockedOrig != 0 {
+		w.tr.Line("vault.msg", "settle1", u(lockedOrig), "-", "-", "-", "-", "esm=0;past=0;brk=0;pin=-;pout=-;iota=0", "ok")
+		w.stateKind("vault.state.settle1")
+	} else {
 		w.tr.Line("vault.msg", "donate", "99", "0", "0", "-", "-", "esm=0;past=0;brk=0;pin=-;pout=-;iota=0", "err")
 		w.stateKind("vault.state.bid")
 	}
